@@ -76,6 +76,8 @@ impl<'a, 'b, Output: BinaryOutput> AdtSerializer<'a, 'b, Output> {
     }
 
     pub fn write_field<T: BinarySerializer>(&mut self, field_name: &str, value: &T) -> Result<()> {
+        #[cfg(desert_verif)]
+        crate::verif::point("AdtSerializer::write_field");
         let chunk = *self
             .metadata
             .field_generations
@@ -95,6 +97,8 @@ impl<'a, 'b, Output: BinaryOutput> AdtSerializer<'a, 'b, Output> {
     }
 
     pub fn finish(mut self) -> Result<()> {
+        #[cfg(desert_verif)]
+        crate::verif::point("AdtSerializer::finish");
         if !self.buffers.is_empty() {
             self.write_evolution_header(
                 &self.metadata.evolution_steps,
